@@ -11,10 +11,22 @@ structure OpenPort where
   mutex : Nat
   deriving Repr, DecidableEq, Inhabited
 
+/-- One `let*` binding pushed by a manager (`self.vars.push(format!(…))`), kept structured;
+    `Binding.render` is the text the Rust code pushes. -/
+inductive Binding where
+  | stdoutPort (i : Nat)                                   -- (%lf3:port:i (current-output-port))
+  | filePort (i : Nat) (filename : Text)                   -- (%lf3:port:i (open-file "…" "w"))
+  | mutex (i : Nat)                                        -- (%lf3:mutex:i (make-mutex))
+  | printerL (i port mutex : Nat) (term : Option Char)     -- (%lf3:print:i (make-printer port mutex term))
+  | printerD (i : Nat)                                     -- (%lf3:print:i (lambda (line) (%lf3:frame:2 line #\xii)))
+  | matcher (i : Nat) (pattern : Text) (insensitive : Bool)-- (%lf3:match:i+1 (lambda (%lf3:str:i) (f? "…" %lf3:str:i)))
+  | frame                                                  -- the fixed %lf3:frame:2 definition
+  deriving Repr, DecidableEq, Inhabited
+
 structure Manager where
   distributed : Bool
   varIndex : Nat
-  vars : List Text
+  vars : List Binding
   fini : List Text := []
   defaultPort : Option OpenPort := none
   files : List (Text × OpenPort) := []
@@ -29,10 +41,7 @@ def Manager.localInit : Manager :=
   { distributed := false, varIndex := 0, vars := [] }
 
 def Manager.distInit : Manager :=
-  { distributed := true, varIndex := 2,
-    vars := [ cl!"(%lf3:port:0 (current-output-port))",
-              cl!"(%lf3:mutex:1 (make-mutex))",
-              cl!"(%lf3:frame:2 (lambda (s d) (with-mutex %lf3:mutex:1 (display s %lf3:port:0) (display (string #\\x1e d) %lf3:port:0))))" ] }
+  { distributed := true, varIndex := 2, vars := [ .stdoutPort 0, .mutex 1, .frame ] }
 
 def assocGet {κ ν : Type} [DecidableEq κ] (l : List (κ × ν)) (k : κ) : Option ν :=
   match l.find? (fun kv => kv.1 = k) with
@@ -73,10 +82,7 @@ def Manager.registerMatch (m : Manager) (pattern : Text) (insensitive : Bool) : 
   | some id => (id, m)
   | none =>
     let i := m.varIndex
-    let v := cl!"(" ++ lf3 (cl!"match") (i + 1) ++ cl!" (lambda (" ++ lf3 (cl!"str") i ++ cl!") ("
-      ++ matcherName pattern insensitive ++ cl!"? \"" ++ schemeEscape pattern ++ cl!"\" "
-      ++ lf3 (cl!"str") i ++ cl!")))"
-    (i + 1, { m with vars := m.vars ++ [v], varIndex := i + 2,
+    (i + 1, { m with vars := m.vars ++ [.matcher i pattern insensitive], varIndex := i + 2,
                      matches_ := m.matches_ ++ [((pattern, insensitive), i + 1)] })
 
 /-- `get_matcher`. -/
@@ -91,8 +97,7 @@ def Manager.initDefaultPort (m : Manager) : OpenPort × Manager :=
   | none =>
     let i := m.varIndex
     let p : OpenPort := { port := i, mutex := i + 1 }
-    (p, { m with vars := m.vars ++ [ cl!"(" ++ lf3 (cl!"port") i ++ cl!" (current-output-port))",
-                                     cl!"(" ++ lf3 (cl!"mutex") (i + 1) ++ cl!" (make-mutex))" ],
+    (p, { m with vars := m.vars ++ [ .stdoutPort i, .mutex (i + 1) ],
                  defaultPort := some p, varIndex := i + 2 })
 
 /-- Local `init_file_port`. -/
@@ -102,8 +107,7 @@ def Manager.initFilePort (m : Manager) (filename : Text) : OpenPort × Manager :
   | none =>
     let i := m.varIndex
     let p : OpenPort := { port := i, mutex := i + 1 }
-    (p, { m with vars := m.vars ++ [ cl!"(" ++ lf3 (cl!"port") i ++ cl!" (open-file \"" ++ schemeEscape filename ++ cl!"\" \"w\"))",
-                                     cl!"(" ++ lf3 (cl!"mutex") (i + 1) ++ cl!" (make-mutex))" ],
+    (p, { m with vars := m.vars ++ [ .filePort i filename, .mutex (i + 1) ],
                  fini := m.fini ++ [cl!"(close-port " ++ lf3 (cl!"port") i ++ cl!")"],
                  files := m.files ++ [(filename, p)], varIndex := i + 2 })
 
@@ -113,9 +117,7 @@ def Manager.registerPrinterL (m : Manager) (port : OpenPort) (term : Option Char
   | some id => (id, m)
   | none =>
     let i := m.varIndex
-    let v := cl!"(" ++ lf3 (cl!"print") i ++ cl!" (make-printer " ++ lf3 (cl!"port") port.port ++ cl!" "
-      ++ lf3 (cl!"mutex") port.mutex ++ cl!" " ++ terminatorEscape term ++ cl!"))"
-    (i, { m with vars := m.vars ++ [v], printersL := m.printersL ++ [((port, term), i)], varIndex := i + 1 })
+    (i, { m with vars := m.vars ++ [.printerL i port.port port.mutex term], printersL := m.printersL ++ [((port, term), i)], varIndex := i + 1 })
 
 /-- Distributed `register_printer`. -/
 def Manager.registerPrinterD (m : Manager) (t : Target) : Nat × Manager :=
@@ -123,8 +125,7 @@ def Manager.registerPrinterD (m : Manager) (t : Target) : Nat × Manager :=
   | some id => (id, m)
   | none =>
     let i := m.varIndex
-    let v := cl!"(" ++ lf3 (cl!"print") i ++ cl!" (lambda (line) (%lf3:frame:2 line #\\x" ++ natToHex02 i ++ cl!")))"
-    (i, { m with vars := m.vars ++ [v], printersD := m.printersD ++ [(t, i)], varIndex := i + 1 })
+    (i, { m with vars := m.vars ++ [.printerD i], printersD := m.printersD ++ [(t, i)], varIndex := i + 1 })
 
 /-- `get_printer`. -/
 def Manager.getPrinter (m : Manager) (term : Option Char) : Text × Manager :=
@@ -151,8 +152,27 @@ def joinWith (sep : Text) : List Text → Text
   | [x] => x
   | x :: xs => x ++ sep ++ joinWith sep xs
 
+/-- The text pushed onto `vars` for a binding. -/
+def Binding.render : Binding → Text
+  | .stdoutPort i => cl!"(" ++ lf3 (cl!"port") i ++ cl!" (current-output-port))"
+  | .filePort i filename =>
+    cl!"(" ++ lf3 (cl!"port") i ++ cl!" (open-file \"" ++ schemeEscape filename ++ cl!"\" \"w\"))"
+  | .mutex i => cl!"(" ++ lf3 (cl!"mutex") i ++ cl!" (make-mutex))"
+  | .printerL i prt mtx term =>
+    cl!"(" ++ lf3 (cl!"print") i ++ cl!" (make-printer " ++ lf3 (cl!"port") prt ++ cl!" "
+      ++ lf3 (cl!"mutex") mtx ++ cl!" " ++ terminatorEscape term ++ cl!"))"
+  | .printerD i =>
+    cl!"(" ++ lf3 (cl!"print") i ++ cl!" (lambda (line) (%lf3:frame:2 line #\\x" ++ natToHex02 i ++ cl!")))"
+  | .matcher i pattern insensitive =>
+    cl!"(" ++ lf3 (cl!"match") (i + 1) ++ cl!" (lambda (" ++ lf3 (cl!"str") i ++ cl!") ("
+      ++ matcherName pattern insensitive ++ cl!"? \"" ++ schemeEscape pattern ++ cl!"\" "
+      ++ lf3 (cl!"str") i ++ cl!")))"
+  | .frame =>
+    cl!"(%lf3:frame:2 (lambda (s d) (with-mutex %lf3:mutex:1 (display s %lf3:port:0) (display (string #\\x1e d) %lf3:port:0))))"
+
 def Manager.definitions (m : Manager) : Text :=
-  if m.distributed then joinWith (cl!"\n       ") m.vars else joinWith (cl!" ") m.vars
+  if m.distributed then joinWith (cl!"\n       ") (m.vars.map Binding.render)
+  else joinWith (cl!" ") (m.vars.map Binding.render)
 
 /-- `init` is never pushed to by either manager. -/
 def Manager.initialization (_ : Manager) : Text := cl!"#t"
